@@ -24,7 +24,7 @@ func checkC08(c *Ctx) {
 	r074(c, "R08.1b state-unaffected-by-redeploy")
 	r072(c, "R08.2 stopped-answers-503-nothing-forwarded")
 	r073(c, "R08.2b gate-precedes-forwarding")
-	r083(c)
+	r083(c, "R08.3 message-only-through-contextual-escaping")
 	r084(c, "R08.4 error-page-nesting")
 	r085(c)
 	r086(c)
@@ -82,8 +82,7 @@ func usesThroughConv(v ssa.Value) []ssa.Instruction {
 	return out
 }
 
-func r083(c *Ctx) {
-	const rule = "R08.3 message-only-through-contextual-escaping"
+func r083(c *Ctx, rule string) {
 	c.floor(rule, 10)
 	// template machinery is html/template
 	tf := c.field("ErrorPageMiddleware", "template")
